@@ -1487,6 +1487,14 @@ public:
         graphidToE_.at(*currEdge) = 00;
 
         EToGraphid_.erase(edgeObject);
+
+        // a deleted edge keeps no index either
+        typename std::map<Eref, EdgeIndex>::iterator indexToForget = EToIndex_.find(edgeObject);
+        if (edgeObject != 00 && indexToForget != EToIndex_.end())
+        {
+          indexToE_.at(indexToForget->second) = 00;
+          EToIndex_.erase(indexToForget);
+        }
       }
     }
   }
